@@ -1,6 +1,7 @@
 import MlModel.Lemmas.PrefetchReplay
 import MlModel.Lemmas.PrefetchGen
 import MlModel.Lemmas.PrefetchLive
+import MlModel.Lemmas.PrefetchVariant
 import MlModel.Properties.C05
 /-!
 # C15 — the prefetching generator protocol delivers the generator faithfully
@@ -124,19 +125,6 @@ prefetch thread's `enqueue_from_iterator` is a `Queue.Cfg` on which `Queue.Live`
 configuration of the server LTS; together with the discipline of the server-level locks this excludes every
 configuration in which a thread waits for ever. -/
 
-theorem enabled_nil {c : Cfg} (h : enabled c = []) (tid : Queue.Tid) : step c tid = none := by
-  rcases Nat.lt_or_ge tid c.ths.length with hlt | hge
-  · cases hs : step c tid with
-    | none => rfl
-    | some r =>
-      exfalso
-      have : tid ∈ enabled c := by
-        unfold enabled
-        rw [List.mem_filter]
-        exact ⟨List.mem_range.mpr hlt, by rw [hs]; rfl⟩
-      rw [h] at this; cases this
-  · exact step_none_of_getElem? (List.getElem?_eq_none hge)
-
 /-- **No deadlock, no request left blocked** (every prefetch size, batch size, generator — failing or
 not —, every schedule): a reachable configuration of the one-client system in which NO thread can take a
 step is final —
@@ -178,11 +166,35 @@ theorem C15_no_lost_wakeup (h : Reachable (init p [.client g b]) c) {q0 : Queue.
   obtain ⟨hv, -⟩ := hL.live q0 hq
   exact ⟨tm, tc, otp, hths, hv.j1, hv.j2, hv.k1, hv.k2⟩
 
+/-! ### Termination: a measure that decreases on every step -/
+
+/-- **Variant** (every prefetch size, batch size, generator, every schedule): `measure b c` — the pair
+(one-time events still to come, 3 · `Queue.Phi` of the queue-level view + the reply's way back + the server
+thread's way to its next wait; `Lemmas/PrefetchVariant.lean`) in lexicographic order — strictly decreases on
+**every** step of **every** thread of the one-client system.  The queue part is `C04_variant`'s measure,
+transferred through the embedding. -/
+theorem C15_variant (h : Reachable (init p [.client g b]) c) {tid : Queue.Tid} {lbl : String} {c' : Cfg}
+    (hs : step c tid = some (lbl, c')) : MLt (measure b c') (measure b c) :=
+  (var_step (rlinv_reachable h) (vxc_reachable h) hs).2
+
+/-- the order of the variant is well-founded (lexicographic order on ℕ × ℕ) -/
+theorem C15_variant_wf : WellFounded MLt := mlt_wf
+
+/-- **No infinite execution**: there is no infinite sequence of steps from a reachable configuration —
+whatever the scheduler does, without any fairness assumption.  With `C15_no_deadlock`: EVERY schedule of the
+one-client system, continued as long as some thread is enabled, stops after finitely many steps in a
+configuration in which the client's loop and the prefetch thread have ended. -/
+theorem C15_terminates {f : Nat → Cfg} (h0 : Reachable (init p [.client g b]) (f 0)) : ¬ IsRun f :=
+  fun hrun => no_infinite_run h0 hrun
+
 /-
-`C15_faithful` / `C15_failure` (the `_partial` of the two theorems above discharged for every execution
-that cannot be extended): in every reachable configuration in which no thread is enabled — i.e. at the end
-of EVERY maximal finite execution, whatever the schedule — the client's loop HAS ended, with exactly the
-generator's elements and its end marker / its exception.
+`C15_faithful` / `C15_failure`: the `_partial` of the two safety theorems above is discharged.
+"For every schedule the client's loop ENDS, having yielded exactly …" = (a) no execution is infinite
+(`C15_terminates`: a lexicographic measure decreases on every step), (b) an execution that cannot be
+extended has the client's loop ended (`C15_no_deadlock`), (c) an ended loop has yielded exactly the
+generator (`C15_faithful_partial` / `C15_failure_partial`).  The two theorems below are (b) + (c) for every
+reachable configuration without enabled step, i.e. for the last configuration of EVERY maximal execution;
+`C15_faithful_run` packages (a) + (b) + (c) for an arbitrary scheduler.
 -/
 
 /-- **Faithful delivery** (safety + deadlock-freedom): every execution that cannot be extended ends with
@@ -207,6 +219,68 @@ theorem C15_failure {xs : List Nat} {rest : List Item} (hsrc : g.src = xs.map It
   obtain ⟨tm, tc, tp, h1, h2, -⟩ := C15_no_deadlock h hdead
   have ht : c.ths[1]? = some tc := by rw [h1]; rfl
   exact ⟨tc, ht, h2, C15_failure_partial hsrc h ht h2⟩
+
+/-- **Every schedule ends**: let `f` be ANY sequence of configurations starting at the initial one that
+follows the LTS as long as some thread is enabled (the scheduler's choices; what `f` does once nothing is
+enabled is irrelevant).  Then there is a moment `n` at which NO thread is enabled any more — the execution
+is finite —, and `f n` is reachable. -/
+theorem C15_run_ends {f : Nat → Cfg} (h0 : f 0 = init p [.client g b])
+    (hmax : ∀ n, enabled (f n) ≠ [] → ∃ tid lbl, step (f n) tid = some (lbl, f (n + 1))) :
+    ∃ n, Reachable (init p [.client g b]) (f n) ∧ enabled (f n) = [] := by
+  -- if no such moment existed, `f` would be an infinite execution
+  by_cases hex : ∃ n, (∀ k < n, ∃ tid lbl, step (f k) tid = some (lbl, f (k + 1))) ∧ enabled (f n) = []
+  · obtain ⟨n, hpre, hdead⟩ := hex
+    have hreach : ∀ k ≤ n, Reachable (init p [.client g b]) (f k) := by
+      intro k
+      induction k with
+      | zero => intro _; rw [h0]; exact .init
+      | succ k ih =>
+        intro hk
+        obtain ⟨tid, lbl, hs⟩ := hpre k (by omega)
+        exact .step (ih (by omega)) hs
+    exact ⟨n, hreach n (Nat.le_refl n), hdead⟩
+  · exfalso
+    have hall : ∀ n, (∀ k < n, ∃ tid lbl, step (f k) tid = some (lbl, f (k + 1))) ∧ enabled (f n) ≠ [] := by
+      intro n
+      induction n with
+      | zero =>
+        refine ⟨fun k hk => absurd hk (Nat.not_lt_zero k), fun hd => hex ⟨0, fun k hk => absurd hk (Nat.not_lt_zero k), hd⟩⟩
+      | succ n ih =>
+        have hstep : ∀ k < n + 1, ∃ tid lbl, step (f k) tid = some (lbl, f (k + 1)) := by
+          intro k hk
+          rcases Nat.lt_succ_iff_lt_or_eq.mp hk with h | h
+          · exact ih.1 k h
+          · subst h; exact hmax k ih.2
+        exact ⟨hstep, fun hd => hex ⟨n + 1, hstep, hd⟩⟩
+    have hrun : IsRun f := fun n => hmax n (hall n).2
+    exact C15_terminates (f := f) (by rw [h0]; exact .init) hrun
+
+/-- **Every schedule delivers the generator faithfully** (liveness + safety in one statement, the FULL
+`C15_faithful` of the property text): under every scheduler the execution is finite, and at its end the
+client's loop has ended having yielded exactly the generator's elements — in order, each once — on the end
+marker carrying exactly its return value. -/
+theorem C15_faithful_run {xs : List Nat} (hsrc : g.src = xs.map Item.val) {f : Nat → Cfg}
+    (h0 : f 0 = init p [.client g b])
+    (hmax : ∀ n, enabled (f n) ≠ [] → ∃ tid lbl, step (f n) tid = some (lbl, f (n + 1))) :
+    ∃ n, enabled (f n) = [] ∧
+      ∃ tc, (f n).ths[1]? = some tc ∧ tc.pc = .done ∧ valuesOf tc.yielded = xs ∧
+        tc.outcome = some (.stop [g.ret]) := by
+  obtain ⟨n, hr, hdead⟩ := C15_run_ends h0 hmax
+  obtain ⟨tc, h1, h2, h3, h4, -⟩ := C15_faithful hsrc hr hdead
+  exact ⟨n, hdead, tc, h1, h2, h3, h4⟩
+
+/-- **Every schedule delivers a generator failure after the elements produced before it** (the FULL
+`C15_failure`): under every scheduler the execution is finite, and at its end the client's loop has ended
+having yielded exactly the values before the failing `next` and raised that exception. -/
+theorem C15_failure_run {xs : List Nat} {rest : List Item} (hsrc : g.src = xs.map Item.val ++ Item.fail :: rest)
+    {f : Nat → Cfg} (h0 : f 0 = init p [.client g b])
+    (hmax : ∀ n, enabled (f n) ≠ [] → ∃ tid lbl, step (f n) tid = some (lbl, f (n + 1))) :
+    ∃ n, enabled (f n) = [] ∧
+      ∃ tc, (f n).ths[1]? = some tc ∧ tc.pc = .done ∧ valuesOf tc.yielded = xs ∧
+        tc.outcome = some (.err .value) := by
+  obtain ⟨n, hr, hdead⟩ := C15_run_ends h0 hmax
+  obtain ⟨tc, h1, h2, h3, h4⟩ := C15_failure hsrc hr hdead
+  exact ⟨n, hdead, tc, h1, h2, h3, h4⟩
 
 /-! ### Non-vacuity of the one-client theorems (tests of the definitions)
 
@@ -248,6 +322,36 @@ has not run yet): `C15_progress` applies — a thread is enabled (the prefetch t
 example : ∃ c, Reachable (init 1 [.client ⟨[.val 7], 900⟩ 1]) c ∧
     c.ths.map (·.qt.pc) = [.done, .bWake, .sAcq] ∧ enabled c = [0, 2] :=
   ⟨_, reachable_replay (init 1 [.client ⟨[.val 7], 900⟩ 1]) (List.replicate 13 1) (by decide), by decide, by decide⟩
+
+/-- a scheduler (always the enabled thread with the smallest id), to show that the hypotheses of
+`C15_run_ends` / `C15_faithful_run` / `C15_failure_run` are satisfiable for every `p`, `g`, `b` -/
+def firstFit (c : Cfg) : Cfg :=
+  match enabled c with
+  | [] => c
+  | tid :: _ => match step c tid with | some (_, c') => c' | none => c
+
+def runFF (c0 : Cfg) : Nat → Cfg
+  | 0 => c0
+  | n + 1 => firstFit (runFF c0 n)
+
+example (c0 : Cfg) : runFF c0 0 = c0 ∧
+    ∀ n, enabled (runFF c0 n) ≠ [] → ∃ tid lbl, step (runFF c0 n) tid = some (lbl, runFF c0 (n + 1)) := by
+  refine ⟨rfl, fun n hne => ?_⟩
+  show ∃ tid lbl, step (runFF c0 n) tid = some (lbl, firstFit (runFF c0 n))
+  generalize runFF c0 n = c at hne ⊢
+  unfold firstFit
+  cases he : enabled c with
+  | nil => exact absurd he hne
+  | cons tid rest =>
+    have hm : tid ∈ enabled c := by rw [he]; exact List.mem_cons_self
+    unfold enabled at hm
+    rw [List.mem_filter] at hm
+    cases hs : step c tid with
+    | none => rw [hs] at hm; simp at hm
+    | some r =>
+      obtain ⟨lbl, c'⟩ := r
+      refine ⟨tid, lbl, ?_⟩
+      simp only [hs]
 
 /-! ### Re-initialisation, stop and shutdown with arbitrary concurrent requests -/
 
